@@ -275,7 +275,7 @@ PROPS["C18"] = dict(
           "responses completed, Stop did not return early (ample), Stop returned, error flag, WaitGroup released, ports bindable again. For every scenario the driver also explores all interleavings of the "
           "lifecycle LTS and checks that every maximal run ends stopped/closed/released and that the observed error flag is one the model can produce. distinct_nontrivial = distinct scenarios."),
     level_text=("Proof of the hand-shake protocol under the stated stdlib contracts: WaitGroup balance (never negative, = started and not returned), no deadlock of Start/Stop for every provider subset and interleaving "
-                "(incl. Stop right after Start, expired context), Stop complete, in-flight requests not cut off with an ample context. Partial: reachability, port release and completion of real requests are "
+                "(incl. Stop right after Start, expired context), Stop complete, in-flight requests not cut off with an ample context; for sequences of Stop calls (model TV.StopRetry) every call with an ample context returns nil and only when nothing is running, whatever earlier calls gave up on. Partial: reachability, port release and completion of real requests are "
                 "socket/runtime truths only observed by the scenarios — this is the property to which the technique contributes least."),
     level_note="Trusted: Lean kernel; the lifecycle LTS with stdlib servers as three-state machines; real sockets only observed.",
     trusted_base=_SRV_TB, assumptions=["time bounds: Start within 2 s, reachability within 5 s, Stop within 30 s, ports free within 1 s"],
